@@ -19,6 +19,20 @@ CHECKS = {
     note='Trusted: TLC, the overlay accessor that reads the window under state.lock, the stub wire.Block (size only). '
          'Exhaustive only for W<=4 on the model; W=10 reached by generated behaviours, not exhaustively.',
     technique='TLA+ reference model + TLC exhaustive check + TLC trace validation of replayed call sequences'),
+ 'C09': dict(
+    engine='BlockStore',
+    category='model_checking',
+    text='TLA+ contract (abstract list of headers; spec/BlockStoreC.tla) and code-layer model of the block repository '
+         '(spec/BlockStore.tla: cache, files of K headers, hash->height map, revert/load/save arithmetic, GetHeaders/BlockHash), '
+         'checked exhaustively by TLC against the contract for K=3. TLC-simulated call sequences (K=4, both storage back ends) '
+         'and attack scripts are replayed on the real BlockRepository at real scale (1000 headers per file) through a height '
+         'map (4 variants placing model heights at file offsets 0,1,2,500,997,998,999); after every call ~115 real queries '
+         'are recorded. TLC recomputes the abstract chain from the recorded calls and requires every recorded answer to '
+         'equal the abstract answer (verdict), and validates results/answers against the code-layer model (conformance).',
+    design_ref='DESIGN.md 5.2, 6 (C09)',
+    note='Trusted: TLC, MockStorage behind a recording wrapper, the height map (real heights between mapped ones are filled '
+         'but never queried), header identity by hash. Sequences are bounded (<=14 headers created, heights <=13 in model units).',
+    technique='TLA+ refinement model (contract vs code layer) + TLC exhaustive check + trace validation of replayed call sequences at real scale'),
 }
 
 NOT_YET = {}
